@@ -32,6 +32,8 @@ type StageIO struct {
 	// RealPath, when set, makes FILEW report its files by their physical
 	// path (all symlinks resolved), as a stage using realpath() would.
 	RealPath func(path string) string
+	// firstFile is the first file FILEW wrote in this job (mode 5).
+	firstFile string
 }
 
 // FileContent is what FILEW writes into the file at path p: self-describing,
@@ -89,6 +91,20 @@ func filewValue(p *Program, io *StageIO, t *T, n int64, dir, tag string, pad *in
 				io.WriteFile(real, FileContent(real, *pad))
 				io.Symlink(name[strings.LastIndex(name, "/")+1:]+".real", pth)
 				return Str(pth)
+			}
+		case 5: // every file after the first is a relative link, from a
+			// sub-directory, to the first file (itself another output)
+			if io.WriteFile != nil && io.Symlink != nil && dir != "" && !strings.Contains(name, "/") {
+				if io.firstFile == "" {
+					io.firstFile = pth
+					io.WriteFile(pth, FileContent(pth, *pad))
+					return Str(pth)
+				}
+				if rel, ok := strings.CutPrefix(io.firstFile, dir+"/"); ok && !strings.Contains(rel, "/") {
+					link := dir + "/links/" + strings.ReplaceAll(name, "/", "_")
+					io.Symlink("../"+rel, link)
+					return Str(link)
+				}
 			}
 		case 4: // a file outside the pipestance
 			if io.WriteFile != nil && io.OutsideDir != "" {
